@@ -2,6 +2,7 @@
 
 Building twice from one spec yields two structurally identical, independent parsers."""
 import copy
+from datetime import timedelta
 from decimal import Decimal
 from typing import Any, Callable, Dict, List, Literal, Optional, OrderedDict, Set, Tuple, Type, Union
 
@@ -61,6 +62,8 @@ TYPES = {
     "type_base": Type[S.Base],
     "opt_type_base": Optional[Type[S.Base]],
     "decimal": Decimal,
+    "timedelta": timedelta,
+    "opt_timedelta": Optional[timedelta],
     "list_D": List[S.D],
     "dict_str_D": Dict[str, S.D],
     "dict_str_base": Dict[str, S.Base],
